@@ -589,3 +589,134 @@ Section Pipeline.
     && (match ws_ready (p_ws p) with None => true | Some _ => false end)
     && is_nil (ws_completed (p_ws p)).
 End Pipeline.
+
+(* ---- writers of a shard: creation and reclaim (shard.go getOrCreate / reclaimIdleWritersLocked,
+   writer.go enqueue / tryActivate / advance / deactivateLocked / idleExpired) -------------------
+   A writer as the shard's sweep sees it: the scheduled flag, lastIdleUnixNano (0 while
+   active), the inbox and the channel state.  Post-commit work is not modelled (no commit ports). *)
+
+Record swriter := SW {
+  sw_scheduled : bool;
+  sw_idle_at : Z;
+  sw_inbox : list (list psend);
+  sw_state : wstate }.
+
+(* channelWriter.hasRunnableWorkLocked (no post-commit ports, no queued commit retry) *)
+Definition hasRunnableWorkLocked (w : swriter) : bool :=
+  negb (is_nil (sw_inbox w)) || canStartAppend (sw_state w).
+
+(* the test inside idleExpired: nothing admitted is unfinished *)
+Definition writer_idle (w : swriter) : bool :=
+  is_nil (sw_inbox w) && negb (hasPendingWork (sw_state w)).
+
+(* channelWriter.idleExpired, with the idleness test as a parameter *)
+Definition idleExpired_with (idlep : swriter -> bool) (w : swriter) (now retention : Z) : bool :=
+  if (retention <=? 0)%Z || sw_scheduled w then false
+  else if negb (idlep w) then false
+  else if (sw_idle_at w =? 0)%Z then false
+  else (sw_idle_at w + retention <=? now)%Z.
+
+Definition idleExpired : swriter -> Z -> Z -> bool := idleExpired_with writer_idle.
+
+(* one shard: the writers map (channel key -> writer), the writers the sweep removed
+   from the map, the clock *)
+Record shard := Shard {
+  sh_writers : list (N * swriter);
+  sh_orphans : list (N * swriter);
+  sh_now : Z;
+  sh_retention : Z;
+  sh_hw : Z;
+  sh_limit : Z }.
+
+Inductive sev :=
+| SSubmit (ch : N) (items : list psend)   (* SubmitLocal: getOrCreate, enqueue, tryActivate *)
+| SAdvance (ch : N)                       (* the scheduled writer of ch runs advance to the end *)
+| SFinish (ch : N) (n : N)                (* an in-flight append of the mapped writer completes *)
+| SFinishOrphan (k : nat) (n : N)         (* ... or of a writer that is no longer in the map *)
+| SAdvanceOrphan (k : nat)
+| STick (d : Z).
+
+Definition new_swriter (hw limit : Z) : swriter := SW false 0 [] (newChannelState hw limit).
+
+Fixpoint wmap_get (ch : N) (m : list (N * swriter)) : option swriter :=
+  match m with
+  | [] => None
+  | (k, w) :: r => if k =? ch then Some w else wmap_get ch r
+  end.
+
+Fixpoint wmap_set (ch : N) (w : swriter) (m : list (N * swriter)) : list (N * swriter) :=
+  match m with
+  | [] => [(ch, w)]
+  | (k, v) :: r => if k =? ch then (k, w) :: r else (k, v) :: wmap_set ch w r
+  end.
+
+(* advance: admit the inbox, issue an append if one may start, then deactivateLocked *)
+Definition sw_advance (now : Z) (w : swriter) : swriter :=
+  let st1 := fold_left enqueuePrepared (sw_inbox w) (sw_state w) in
+  let st2 := snd (nextAppendBatch st1) in
+  let w2 := SW false (sw_idle_at w) [] st2 in
+  if hasRunnableWorkLocked w2 then w2 else SW false now [] st2.
+
+(* a completion: finishAppend, then rescheduleIfNeeded *)
+Definition sw_finish (w : swriter) (n : N) : swriter :=
+  if 0 <? ws_inflight (sw_state w) then
+    let w1 := SW (sw_scheduled w) (sw_idle_at w) (sw_inbox w) (finishAppend (sw_state w) n) in
+    if hasRunnableWorkLocked w1 then SW true (sw_idle_at w1) (sw_inbox w1) (sw_state w1) else w1
+  else w.
+
+Section ShardModel.
+  Variable idlep : swriter -> bool.
+
+  Definition sstep (s : shard) (e : sev) : shard :=
+    match e with
+    | SSubmit ch items =>
+        match wmap_get ch (sh_writers s) with
+        | Some w =>
+            Shard (wmap_set ch (SW true 0 (sw_inbox w ++ [items]) (sw_state w)) (sh_writers s))
+                  (sh_orphans s) (sh_now s) (sh_retention s) (sh_hw s) (sh_limit s)
+        | None =>
+            (* slow path of getOrCreate: sweep, then create *)
+            let expired := fun p : N * swriter => idleExpired_with idlep (snd p) (sh_now s) (sh_retention s) in
+            let kept := filter (fun p => negb (expired p)) (sh_writers s) in
+            let gone := filter expired (sh_writers s) in
+            let w := new_swriter (sh_hw s) (sh_limit s) in
+            Shard (wmap_set ch (SW true 0 [items] (sw_state w)) kept) (sh_orphans s ++ gone)
+                  (sh_now s) (sh_retention s) (sh_hw s) (sh_limit s)
+        end
+    | SAdvance ch =>
+        match wmap_get ch (sh_writers s) with
+        | Some w => if sw_scheduled w
+                    then Shard (wmap_set ch (sw_advance (sh_now s) w) (sh_writers s)) (sh_orphans s)
+                               (sh_now s) (sh_retention s) (sh_hw s) (sh_limit s)
+                    else s
+        | None => s
+        end
+    | SFinish ch n =>
+        match wmap_get ch (sh_writers s) with
+        | Some w => Shard (wmap_set ch (sw_finish w n) (sh_writers s)) (sh_orphans s)
+                          (sh_now s) (sh_retention s) (sh_hw s) (sh_limit s)
+        | None => s
+        end
+    | SFinishOrphan k n =>
+        match nth_error (sh_orphans s) k with
+        | Some (ch, w) => Shard (sh_writers s) (set_nth k (ch, sw_finish w n) (sh_orphans s))
+                                (sh_now s) (sh_retention s) (sh_hw s) (sh_limit s)
+        | None => s
+        end
+    | SAdvanceOrphan k =>
+        match nth_error (sh_orphans s) k with
+        | Some (ch, w) => if sw_scheduled w
+                          then Shard (sh_writers s) (set_nth k (ch, sw_advance (sh_now s) w) (sh_orphans s))
+                                     (sh_now s) (sh_retention s) (sh_hw s) (sh_limit s)
+                          else s
+        | None => s
+        end
+    | STick d => Shard (sh_writers s) (sh_orphans s) (sh_now s + Z.max d 0) (sh_retention s) (sh_hw s) (sh_limit s)
+    end.
+
+  Definition srun (retention hw limit : Z) (evs : list sev) : shard :=
+    fold_left sstep evs (Shard [] [] 1 retention hw limit).
+End ShardModel.
+
+(* a writer that still owns admitted, unfinished sends *)
+Definition has_work (w : swriter) : bool := negb (writer_idle w).
